@@ -83,7 +83,8 @@ def run_program(ctx, spec, prog):
     res_path = os.path.join(d, "res.json")
     timeout_ms = 60000 if ctx.tier == "quick" else 300000
     g = [os.path.join(VERIF, "bin/gosym"), "-dir", d, "-pkg", "./" + info["pkg"], "-run", spec["harness"], "-labels", spec["labels"],
-         "-out", res_path, "-workers", str(spec.get("workers", 4)), "-timeout", str(timeout_ms), "-unwind", "64"] + spec.get("gosym", [])
+         "-out", res_path, "-workers", str(spec.get("workers", 4)), "-timeout", str(timeout_ms), "-unwind", "64",
+         "-witnesses", "2" if ctx.tier == "quick" else "6", "-seed", str(ctx.seed)] + spec.get("gosym", [])
     if info.get("summarize"):
         g += ["-summarize", info["summarize"]]
     if ctx.tier == "thorough" and spec.get("solver2", True):
@@ -171,6 +172,17 @@ def judge(ctx, spec, res):
                     ctx.errors.append("%s/%s %s: reachability inconclusive (%s)" % (res["program"], h["harness"], o["label"], v))
                 reach[o["label"]] = reach.get(o["label"], False) or v == "sat"
                 continue
+            if o["kind"] == "witness-random":
+                if v != "sat":
+                    continue
+                rep = replay(ctx, res, h["harness"], o.get("model"))
+                o["native"] = rep
+                lre = re.compile(spec["labels"])
+                bad = [x for x in (rep.get("failed") or []) if lre.search(x)] or rep.get("panic") or rep.get("crash") or rep.get("desync") or rep.get("assume_failed")
+                proved_all = all(x["verdict"] == "unsat" for x in h["obligations"] if x["kind"] in ("violation", "panic"))
+                if bad and proved_all:
+                    ctx.errors.append("%s/%s: randomised witness fails natively although every obligation was proved (engine unsound?): %s" % (res["program"], h["harness"], json.dumps(rep)[:600]))
+                continue
             if o["kind"] == "witness":
                 if v != "sat":
                     ctx.errors.append("%s/%s %s: harness end not reachable (%s) - vacuous" % (res["program"], h["harness"], o["label"], v))
@@ -239,7 +251,7 @@ def evidence(ctx, spec_all, results, kres):
                     else:
                         solved += 1
                         distinct.add((res["program"], h["harness"], o["label"]))
-                if o["kind"] == "witness":
+                if o["kind"] in ("witness", "witness-random") and o["verdict"] == "sat":
                     witnesses += 1
                     if "native" in o:
                         replayed += 1
@@ -392,7 +404,7 @@ def main():
     obs = []
     if "O" in spec and a.only in ("", "O"):
         od = os.path.join(ctx.work, "observe")
-        p = sh([os.path.join(VERIF, "bin/corpus"), "observe", "-plugin", ctx.plugin, "-out", od], check=False, timeout=900)
+        p = sh([os.path.join(VERIF, "bin/corpus"), "observe", "-plugin", ctx.plugin, "-out", od, spec["O"]], check=False, timeout=900)
         if p.returncode != 0:
             ctx.errors.append("pipeline observation failed: " + p.stderr.decode()[-800:])
         else:
